@@ -250,6 +250,7 @@ def run_cbmc_once(job, wd, tier, cfiles, inc, dfl, bounds, names, tmo):
     res['failed'] = [(nm, p['class'], p['desc']) for nm, p in failed]
     res['traces'] = {nm: traces.get(nm) for nm, p in failed if p['class'] in ('PROP', 'SAFETY')}
     res['prop_descs'] = sorted(set(p['desc'] for p in props.values() if p['class'] == 'PROP'))
+    res['witness_inputs'] = next((traces.get(nm) for nm, p in failed if p['class'] == 'WITNESS' and traces.get(nm)), None)
     res['status'] = 'DONE'
     return res
 
@@ -435,7 +436,9 @@ def main():
     for r in done[:6]:
         samples.append({'job': r['job'], 'harness': r['harness'], 'defs': r['defs'], 'bounds': r['bounds'],
                         'property_assertions': r['cbmc']['prop_descs'], 'obligations': r['cbmc']['by_class'],
-                        'cbmc': r['cbmc']['cmd'][:600], 'solver_wall_s': r['cbmc']['wall_s']})
+                        'cbmc': r['cbmc']['cmd'][:600], 'solver_wall_s': r['cbmc']['wall_s'],
+                        'reachability_witness_inputs': r['cbmc'].get('witness_inputs'),
+                        'note': 'the obligations above hold for EVERY input inside the bounds; reachability_witness_inputs is one concrete input vector (values drawn by IN(), in order) with which the solver reached the end of the harness'})
     ev = {
         'property_id': prop, 'tier': a.tier, 'seed': seed, 'level': PROPS[prop]['level'],
         'coverage': {
